@@ -51,16 +51,6 @@ def leU32 : Nat → Bytes → UInt32
   | _+1, [] => 0
   | n+1, b :: r => b.toUInt32 ||| (leU32 n r <<< 8)
 
-def beU64 : Nat → UInt64 → Bytes → UInt64
-  | 0, acc, _ => acc
-  | _+1, acc, [] => acc
-  | n+1, acc, b :: r => beU64 n ((acc <<< 8) ||| b.toUInt64) r
-
-def beU32 : Nat → UInt32 → Bytes → UInt32
-  | 0, acc, _ => acc
-  | _+1, acc, [] => acc
-  | n+1, acc, b :: r => beU32 n ((acc <<< 8) ||| b.toUInt32) r
-
 def u64toLE (n : Nat) (w : UInt64) : Bytes :=
   match n with
   | 0 => []
@@ -83,8 +73,8 @@ instance : Variant UInt64 where
   rotr x n := (x >>> n.toUInt64) ||| (x <<< (64 - n).toUInt64)
   ofLE := leU64 8
   toLE := u64toLE 8
-  ofBE := beU64 8 0
-  toBE w := (u64toLE 8 w).reverse
+  ofBE b := UInt64.ofNat (natOfBE (b.take 8))
+  toBE w := natToBE 8 w.toNat
   ofNat := UInt64.ofNat
   iv0 := 0x6a09e667f3bcc908
   iv1 := 0xbb67ae8584caa73b
@@ -107,8 +97,8 @@ instance : Variant UInt32 where
   rotr x n := (x >>> n.toUInt32) ||| (x <<< (32 - n).toUInt32)
   ofLE := leU32 4
   toLE := u32toLE 4
-  ofBE := beU32 4 0
-  toBE w := (u32toLE 4 w).reverse
+  ofBE b := UInt32.ofNat (natOfBE (b.take 4))
+  toBE w := natToBE 4 w.toNat
   ofNat := UInt32.ofNat
   iv0 := 0x6a09e667
   iv1 := 0xbb67ae85
